@@ -93,7 +93,7 @@ func equalityPolarity(p *core.Prog, roots []*ssa.Function) (bad []string, checke
 		}
 		cross := func(b *ssa.BinOp) bool {
 			x, y := derive(b.X, 0), derive(b.Y, 0)
-			return (x == 1 && y == 2) || (x == 2 && y == 1)
+			return crossOperands(x, y)
 		}
 		orders := false
 		var eqs []*ssa.BinOp
@@ -138,7 +138,7 @@ func equalityPolarity(p *core.Prog, roots []*ssa.Function) (bad []string, checke
 				isEq = true
 			}
 			x, y := derive(c.Call.Args[0], 0), derive(c.Call.Args[1], 0)
-			if isEq && ((x == 1 && y == 2) || (x == 2 && y == 1)) {
+			if isEq && crossOperands(x, y) {
 				eqCalls = append(eqCalls, c)
 			}
 		})
@@ -168,12 +168,56 @@ func equalityPolarity(p *core.Prog, roots []*ssa.Function) (bad []string, checke
 			}
 			return false, false
 		}
+		// member-wise comparison: a loop that answers false on the first difference answers true when it runs out
+		loopExitFalse := func(at *ssa.BasicBlock) string {
+			for h := at.Idom(); h != nil; h = h.Idom() {
+				if _, isIf := h.Instrs[len(h.Instrs)-1].(*ssa.If); !isIf || len(h.Succs) != 2 {
+					continue
+				}
+				// a loop head: reachable again from the comparison
+				back := false
+				seen := map[*ssa.BasicBlock]bool{}
+				stack := append([]*ssa.BasicBlock{}, at.Succs...)
+				for len(stack) > 0 && !back {
+					x := stack[len(stack)-1]
+					stack = stack[:len(stack)-1]
+					if seen[x] {
+						continue
+					}
+					seen[x] = true
+					if x == h {
+						back = true
+						break
+					}
+					if h.Dominates(x) {
+						stack = append(stack, x.Succs...)
+					}
+				}
+				if !back {
+					continue
+				}
+				for _, sx := range h.Succs {
+					if sx != at && !sx.Dominates(at) {
+						if v, ok := retConst(sx); ok && !v {
+							return p.Pos(sx.Instrs[len(sx.Instrs)-1].Pos())
+						}
+					}
+				}
+				return ""
+			}
+			return ""
+		}
 		for _, c := range eqCalls {
 			checked++
 			for _, ref := range core.Refs(c) {
 				u, ok := ref.(*ssa.If)
 				if !ok || u.Cond != ssa.Value(c) {
 					continue
+				}
+				if v, ok := retConst(u.Block().Succs[1]); ok && !v {
+					if where := loopExitFalse(u.Block()); where != "" {
+						bad = append(bad, fmt.Sprintf("%s (%s): the loop that answers false on the first pair of members that differ also answers false when it has run out of members (%s): containers with equal members are never equal", core.FuncName(g), p.Pos(c.Pos()), where))
+					}
 				}
 				if v, ok := retConst(u.Block().Succs[0]); ok && !v {
 					bad = append(bad, fmt.Sprintf("%s (%s): when %s finds the parts of the two operands equal, the predicate answers false at once", core.FuncName(g), p.Pos(c.Pos()), core.CalleeID(c)))
@@ -210,4 +254,10 @@ func equalityPolarity(p *core.Prog, roots []*ssa.Function) (bad []string, checke
 		}
 	}
 	return bad, checked, preds
+}
+
+// crossOperands: one side derives from the first operand, the other from the second, and they are not the same
+// mixture (the value a map of the second operand holds under a key of the first still stands for the second).
+func crossOperands(x, y int) bool {
+	return x != 0 && y != 0 && x != y && x|y == 3
 }
